@@ -2,6 +2,7 @@ import pathlib
 
 import pandas as pd
 
+from visions.backends.shared.utilities import path_exists
 from visions.backends.pandas.series_utils import series_handle_nulls, series_not_empty
 from visions.types.file import File
 
@@ -10,4 +11,4 @@ from visions.types.file import File
 @series_not_empty
 @series_handle_nulls
 def file_contains(series: pd.Series, state: dict) -> bool:
-    return all(isinstance(p, pathlib.Path) and p.exists() for p in series)
+    return all(isinstance(p, pathlib.Path) and path_exists(p) for p in series)
